@@ -16,7 +16,11 @@ Inductive case :=
 | CRevDelAll (n : Z) (survivors : Z)                  (* n-member object, reviver deletes every member: members left *)
 | CStringify (v : js) (rep : replacer) (sp : space) (obs : sres)
 | CReprint (text : list Z) (obs : sres)               (* JSON.stringify(JSON.parse(text)) *)
-| CMarshal (v : js) (obs : sres).                     (* Go side: json.Marshal(otto.Value) *)
+| CMarshal (v : js) (obs : sres)                      (* Go side: json.Marshal(otto.Value) *)
+| CAgree (what : Z) (agree : bool).                   (* Go side: json.Marshal(value), value.Object().MarshalJSON() and
+                                                         json.Marshal(value.Export()) give the text JSON.stringify(value)
+                                                         gives in the script, for object classes outside the js model
+                                                         (what: 1 value/object marshalling, 2 exported JSON trees) *)
 
 (* finding classes:
    1 unpaired surrogate -> U+FFFD in JSON.parse      2 number overflow -> SyntaxError in JSON.parse
@@ -214,6 +218,7 @@ Definition verdict (c : case) : Z * Z :=
                   else parse_class text)
       | _, _ => declined
       end
+  | CAgree _ b => judge Bool.eqb b true true 0
   | CMarshal v obs =>
       let m := marshal_of otto v in
       let s := marshal_of es5 v in
